@@ -38,6 +38,7 @@ def model_check(ctx):
     ctx.mc_expect("MC_Assignment", "DEV_Assignment_2.cfg", ("InvInverseStatic", "InvInverseDynamic"))
     ctx.mc_expect("MC_Assignment", "DEV_Assignment_3.cfg", "InvRemoveTotal")
     ctx.mc_expect("MC_Assignment", "DEV_Assignment_4.cfg", ("InvInverseStatic", "InvInverseDynamic"))
+    ctx.mc_expect("MC_Assignment", "DEV_Assignment_5.cfg", "PropAssignTruth")
 
 
 def cases(ctx):
@@ -108,6 +109,8 @@ def _random_case(seed, big=0):
             ops.append(["move", r.choice(sorted(present)), [2 * r.randint(-2, 2), 2 * r.randint(-2, 2)]])
         elif k < 0.93:
             ops.append([r.choice(["remove_lanelet", "remove_lanelet", "replace_network"]), r.choice(lan)[0]])
+        elif k < 0.96:
+            ops.append(["move_network", 0, [4 * r.randint(-1, 1), 4 * r.randint(-1, 1)]])
         elif present:
             ops.append([r.choice(["open_xml", "open_pb"]), 0])
     return world, ops, r.randint(0, 1)
@@ -171,6 +174,17 @@ def _poses_of(o):
     return out
 
 
+def _box_of(la):
+    """Current integer box <<id, x0, y0, x1, y1>> of a real lanelet."""
+    import numpy as np
+    v = np.concatenate((la.left_vertices, la.right_vertices))
+    xs, ys = v[:, 0], v[:, 1]
+    b = [float(xs.min()), float(ys.min()), float(xs.max()), float(ys.max())]
+    if any(abs(x - round(x)) > 1e-6 for x in b):
+        raise tlc.MachineryError("off-lattice lanelet %r" % (b,))
+    return [int(la.lanelet_id)] + [int(round(x)) for x in b]
+
+
 def _ids(s):
     return sorted(int(x) for x in s)
 
@@ -231,6 +245,10 @@ def execute(case):
                 d = list(step[2]) if len(step) > 2 else [4, 0]       # doubled coordinates
                 sig = "move/%s/%s" % (by_id[arg]["kind"], "assigned" if o.initial_shape_lanelet_ids is not None else "unassigned")
                 o.translate_rotate(np.array([d[0] / 2.0, d[1] / 2.0]), 0.0)
+            elif op == "move_network":                             # network-level rigid motion by a lattice vector
+                import numpy as np
+                d = list(step[2]) if len(step) > 2 else [4, 0]       # doubled coordinates (even: whole units)
+                sc.lanelet_network.translate_rotate(np.array([d[0] / 2.0, d[1] / 2.0]), 0.0)
             elif op == "remove_lanelet":
                 la = sc.lanelet_network.find_lanelet_by_id(arg)
                 if la is None:
@@ -252,12 +270,12 @@ def execute(case):
                 sig = "remove/%s/%s" % (by_id[arg]["kind"], "assigned" if o.initial_shape_lanelet_ids is not None else "unassigned")
                 sc.remove_obstacle(o)
             elif op in ("open_xml", "open_pb"):
-                d = os.path.join(tlc.OUT, "c07_tmp")
-                os.makedirs(d, exist_ok=True)
-                path = os.path.join(d, "p%d.%s" % (os.getpid(), "xml" if op == "open_xml" else "pb"))
+                tmpd = os.path.join(tlc.OUT, "c07_tmp")
+                os.makedirs(tmpd, exist_ok=True)
+                path = os.path.join(tmpd, "p%d.%s" % (os.getpid(), "xml" if op == "open_xml" else "pb"))
                 # write a scenario that carries no assignment yet (the CURRENT lattice world, projected from the real
                 # objects: remaining lanelets, obstacles at their current poses), read it back with lanelet assignment
-                fresh = build_scenario({"lan": [r for r in world["lan"] if sc.lanelet_network.find_lanelet_by_id(r[0])]})
+                fresh = build_scenario({"lan": [_box_of(la) for la in sc.lanelet_network.lanelets]})
                 for o in sc.obstacles:
                     fresh.add_objects(build_obstacle(dict(by_id[o.obstacle_id], poses=_poses_of(o))))
                 CommonRoadFileWriter(fresh, PlanningProblemSet(), decimal_precision=6,
